@@ -1805,10 +1805,16 @@ func createManagerKeyScope(ns walletdb.ReadWriteBucket,
 		return err
 	}
 
-	return putDefaultAccountInfo(
+	err = putDefaultAccountInfo(
 		ns, &scope, ImportedAddrAccount, nil, nil, 0, 0,
 		ImportedAddrAccountName,
 	)
+	if err != nil {
+		return err
+	}
+
+	// The default account is the last account of the new scope.
+	return putLastAccount(ns, &scope, DefaultAccountNum)
 }
 
 // Create creates a new address manager in the given namespace.
